@@ -132,11 +132,16 @@ class MultiCtl(BaseMultiCtl, Module):
         if self.parent is None or not down:
             return
         for i, to_mod in enumerate(self.out_links):
+            if to_mod < 0 or i >= len(self.mappings.values):
+                continue  # freed link slot, or more links than mappings
             mapping = self.mappings.values[i]
             if mapping.controller == 0:
                 continue  # no controller mapped for this link
             mod = self.parent.modules[to_mod]
-            ctl = list(mod.controllers.values())[mapping.controller - 1]
+            controllers = list(mod.controllers.values())
+            if mapping.controller > len(controllers):
+                continue  # the target has no such controller
+            ctl = controllers[mapping.controller - 1]
             vt = ctl.value_type
             if isinstance(vt, Range):
                 vmax = None if isinstance(vt, CompactRange) else vt.max - vt.min
